@@ -36,7 +36,12 @@ func redirectToHTTPS(httpsPort string, next http.Handler) http.Handler {
 		}
 
 		// Copy the request URL
-		targetURL, _ := url.Parse(req.URL.String())
+		targetURL, err := url.Parse(req.URL.String())
+		if err != nil {
+			// A request target like "//host:port/" with an invalid port does not survive re-parsing
+			http.Error(rw, http.StatusText(http.StatusBadRequest), http.StatusBadRequest)
+			return
+		}
 		// Set the scheme to HTTPS
 		targetURL.Scheme = httpsScheme
 
